@@ -8,7 +8,9 @@ RULE = ("V: RxPipeline.tla enumerates genuine packets of 7 kinds (data, test req
         "after; run with accept_recv_error always and never; distinct = vectors")
 ASSUMPTIONS = [
     "node state = hostmap, tunnel records (remote, liveness flags, roam record, replay window top, counters, relay state), "
-    "pending handshakes and the lighthouse cache; metrics are allowed to change",
+    "pending handshakes and the lighthouse cache; metrics are allowed to change; before every vector the harness reads and clears "
+    "the tunnels' traffic marks exactly as the connection manager does when its timer fires (hostinfo.in/out Swap(false)), so "
+    "that a liveness update caused by the packet under test shows in the projection",
     "a recv_error reply to an unknown index is allowed (it changes no state)",
     "alterations are applied to the outer datagram; for relayed packets that is the relay hop's packet (a relay that re-signs is C15)",
 ]
@@ -37,7 +39,7 @@ def run(ctx):
     if missing:
         from tools.check import MachineryError
         raise MachineryError('no genuine packet captured for kinds %s' % missing)
-    ctx.require_actions('exp:none', 'exp:recverr-reply', 'exp:hs-refused', 'genuine-acted:data', 'genuine-acted:close')
+    ctx.require_actions('exp:none', 'exp:recverr-reply', 'exp:hs-refused', 'genuine-acted:data', 'genuine-acted:close', 'liveness-marks-cleared')
 
 
 META = {
